@@ -11,15 +11,16 @@ for sid in ids:
     info=needs.get(sid,{})
     prop=info.get('property', sid.split('_')[0])
     conf=open(os.path.join(d,'confirm.log')).read().strip().split('\n')[-1] if os.path.exists(os.path.join(d,'confirm.log')) else ''
-    r=subprocess.run(['/verif/tools/run_seed.sh', os.path.join(d,'patch.diff'), prop],capture_output=True,text=True)
+    props=[prop]+info.get('also',[])
+    r=subprocess.run(['/verif/tools/run_seed.sh', os.path.join(d,'patch.diff')]+props,capture_output=True,text=True)
     out=r.stdout.strip()
-    caught='violations=0' not in out and 'violations=' in out
+    caught=any(('violations=' in l and 'violations=0' not in l) for l in out.split('\n'))
     files=[l[6:] for l in open(os.path.join(d,'patch.diff')) if l.startswith('+++ b/')]
     meta={'seed':sid,'breaks_property':prop,'files':files,'change':info.get('change',''),'needs_to_manifest':info.get('needs',''),
           'confirmation':{'how':'tools/confirm_seed.sh in a scratch worktree of /repo at the original snapshot: demo on original (must pass), build with change, demo with change (must fail), existing suite with change (must pass)','result':conf},
-          'check_run':{'cmd':'tools/run_seed.sh seeded/%s/patch.diff %s'%(sid,prop),'output':out,'caught':caught}}
+          'check_run':{'cmd':'tools/run_seed.sh seeded/%s/patch.diff %s'%(sid,' '.join(props)),'output':out,'caught':caught}}
     json.dump(meta,open(os.path.join(d,'meta.json'),'w'),indent=1)
-    rows.append((sid,prop,'yes' if 'CONFIRMED=yes' in conf else 'NO','caught' if caught else 'MISSED',out.split('violations=')[-1][:160] if caught else ''))
+    rows.append((sid,prop,'yes' if 'CONFIRMED=yes' in conf else 'NO','caught' if caught else 'MISSED',next((l.strip()[:200] for l in out.split('\n') if 'violations=' in l and 'violations=0' not in l),'') if caught else ''))
     print(sid,prop,rows[-1][2],rows[-1][3])
 with open(os.path.join(ROOT,'README.md'),'w') as f:
     f.write('# Seeded property-breaking changes (from sub-agents that saw only the property text)\n\n| seed | property | confirmed | quick check | first failing claimed clause |\n|---|---|---|---|---|\n')
